@@ -140,7 +140,29 @@ def c12(prog, rep):
                         'libc callees do not retain their pointer arguments']
 
 
+def c16(prog, rep):
+    from . import tables as T
+    T.rule_c16(prog, rep)
+    rep.floor('TB1', 257)
+    rep.floor('TB2', 64)
+    rep.floor('TB3', 256)
+    rep.floor('TB4', 38)
+    rep.floor('TB5', 4)
+    rep.floor('TB6', 3)
+    rep.floor('TB7', 3)
+    rep.explanation = (
+        'Exhaustive check of every entry of the five codec tables, read from their initialiser lists in the type-checked AST '
+        '(located by role and length inside their functions, not by name): URL classification table (256 entries: value is 0 '
+        'or the byte itself; literal set is URL-safe ASCII without the reserved characters), Base64 alphabet (64 entries = RFC '
+        '4648), Base64 reader map (256 entries: inverse of the writer, skip marker elsewhere), hex digit table (lowercase) and '
+        'hex reader map (inverse, both cases). Plus the structural clauses: padding conditionals, output allocation 4*ceil(n/3)+1, '
+        'unsigned-byte indexing of the 256-entry tables, \'+\'->space and %hh via the case-folding helper. Not decided: '
+        'round-trip equality and the decoders\' bit arithmetic (value computations).')
+    rep.assumptions += ['round-trip equality for all byte strings is a value computation and is not decided']
+
+
 PROPS = {
+    'C16': dict(fn=c16, level='other'),
     'C11': dict(fn=c11, level='other'),
     'C12': dict(fn=c12, level='other'),
     'C15': dict(fn=c15, level='other'),
